@@ -60,6 +60,9 @@ impl Bufs {
 
 // ---- stack usage calculators (plain fns; the data box carries the spec) ----
 
+/// helper family used by `run_interp` (0 plain, 1 hostile, 2 gentle)
+pub static INTERP_FAMILY: std::sync::atomic::AtomicU8 = std::sync::atomic::AtomicU8::new(0);
+
 pub static CALC_LOG: std::sync::Mutex<Vec<usize>> = std::sync::Mutex::new(Vec::new());
 
 fn calc_fn(_prog: &[u8], pc: usize, data: &mut dyn Any) -> u16 {
@@ -148,7 +151,12 @@ pub fn run_interp(c: &Case, bufs: &Bufs, budget: u64, trace_cap: usize) -> Inter
     hlp::log_reset();
     let mut trace = vec![0u32; trace_cap];
     let r = sys::catch(|| {
-        let mut vm = match build_vm(c, Family::Plain) {
+        let fam = match INTERP_FAMILY.load(std::sync::atomic::Ordering::Relaxed) {
+            1 => Family::Hostile,
+            2 => Family::Gentle,
+            _ => Family::Plain,
+        };
+        let mut vm = match build_vm(c, fam) {
             Ok(v) => v,
             Err(e) => return Ran::Rejected(e),
         };
